@@ -228,8 +228,10 @@ impl DnsHandle for TamperHandle {
     }
 }
 
-pub const MUTATIONS: [&str; 8] =
-    ["strip-nsec", "strip-nsec-sig", "strip-soa", "strip-answer", "empty", "swap-rcode", "as-error", "forge-nsec"];
+pub const MUTATIONS: [&str; 10] = [
+    "strip-nsec", "strip-nsec-sig", "strip-soa", "strip-answer", "empty", "swap-rcode", "as-error", "as-error-bare",
+    "forge-nsec", "add-nsec3",
+];
 
 fn is_sig_of(rr: &Record, t: RecordType) -> bool {
     matches!(&rr.data, RData::DNSSEC(DNSSECRData::RRSIG(s)) if s.input().type_covered == t)
@@ -275,6 +277,30 @@ fn tamper(raw: &DnsResponse, query: &Query, m: &str) -> Option<Result<DnsRespons
             );
             msg.authorities.push(Record::from_rdata(soa.name.clone(), soa.ttl, RData::DNSSEC(DNSSECRData::NSEC(forged))));
             msg.metadata.response_code = ResponseCode::NXDomain;
+        }
+        // an (unsigned) NSEC3 record owned by the apex beside the genuine NSECs: a response with
+        // both kinds of proof is Bogus whatever they say
+        "add-nsec3" => {
+            let soa = msg.authorities.iter().find(|rr| rr.record_type() == RecordType::SOA)?.clone();
+            if !msg.authorities.iter().any(|rr| rr.record_type() == RecordType::NSEC) {
+                return None;
+            }
+            let n3 = hickory_proto::dnssec::rdata::NSEC3::new(
+                hickory_proto::dnssec::Nsec3HashAlgorithm::SHA1,
+                false,
+                0,
+                vec![],
+                vec![0u8; 20],
+                [RecordType::A, RecordType::RRSIG],
+            );
+            msg.authorities.push(Record::from_rdata(soa.name.clone(), soa.ttl, RData::DNSSEC(DNSSECRData::NSEC3(n3))));
+        }
+        // the bare error a caching layer may hand over: no authority records at all
+        "as-error-bare" => {
+            if !msg.answers.is_empty() {
+                return None;
+            }
+            return Some(Err(NoRecords::new(query.clone(), msg.metadata.response_code)));
         }
         "as-error" => {
             if !msg.answers.is_empty() {
@@ -407,11 +433,14 @@ pub fn exec_tamper(t: &[&str], line: &str, rec: &mut Recorder) {
         }
         // a secure zone's denial / wildcard proof cannot be dispensed with (outside referrals, where
         // the validator fetches the DS proof itself)
-        if bad.is_none() && !cut && raw_has_nsec && matches!(*m, "strip-nsec" | "strip-nsec-sig" | "empty" | "forge-nsec") {
+        if bad.is_none() && !cut && raw_has_nsec && matches!(*m, "strip-nsec" | "strip-nsec-sig" | "empty" | "forge-nsec" | "as-error-bare") {
             bad = Some("accepted although the NSEC proof (or its signature) was removed".into());
         }
         if bad.is_none() && !cut && *m == "strip-answer" {
             bad = Some("accepted although the answer RRset was removed".into());
+        }
+        if bad.is_none() && *m == "add-nsec3" {
+            bad = Some("accepted although the response carries both NSEC and NSEC3 records".into());
         }
     }
     if *m == "as-error" && verdict.is_ok() != base_ok {
@@ -430,7 +459,7 @@ pub fn exec_tamper(t: &[&str], line: &str, rec: &mut Recorder) {
             ""
         } else if unsigned_beside {
             "unsigned-nsec-beside-signed-rrset-taken-as-authenticated"
-        } else if matches!(*m, "strip-nsec" | "strip-nsec-sig" | "empty" | "strip-answer") {
+        } else if matches!(*m, "strip-nsec" | "strip-nsec-sig" | "empty" | "strip-answer" | "as-error-bare") {
             "proofless-response-accepted-child-side-ds-denial-marks-anchored-zone-insecure"
         } else {
             ""
